@@ -1,5 +1,6 @@
 import Driver.Common
 import Logrange.Model.PipeLtsInc
+import Logrange.Model.PipeLtsRep
 import Logrange.Generated.C10
 /-! Model driver for C10 (pipe LTS). Requests (byte strings hex, `-` = empty; an event is `<ts>:<msg>:<fields>`):
 
@@ -81,12 +82,18 @@ def showWk : Wk → String
 
 def b01 (b : Bool) : String := if b then "1" else "0"
 
+/-- the repairs of F79 / F10 as the extractor finds them in the source now: the driver runs the repaired LTS `stepR`, which
+is the plain LTS on a tree without them -/
+def rcNow : RCfg :=
+  ⟨Logrange.Generated.C10.initCatchesUpLoadedPipes, Logrange.Generated.C10.firstNotificationPersistsDescriptor,
+   Logrange.Generated.C10.writePublishesUnderPartitionLock⟩
+
 def doStep (st : State) (l : Label) : State × String :=
-  match step cfgNow st l with
+  match stepR cfgNow rcNow st l with
   | some st' => (st', "ok")
   | none => (st, "disabled")
 
-def tryStep (st : State) (l : Label) : State := (step cfgNow st l).getD st
+def tryStep (st : State) (l : Label) : State := (stepR cfgNow rcNow st l).getD st
 
 def nat (s : String) : Nat := s.toNat?.getD 0
 
@@ -134,7 +141,7 @@ def handleCur (st : State) (toks : List String) : State × String :=
     (st, s!"{recSize e} {recSize (addProv p e)}")
   | ["quiescent"] => (st, b01 (quiescent st))
   | ["pipe"] => (st, (match st.pipe with | .absent => "absent" | .live => "live" | .deleted => "deleted") ++ " reg=" ++ b01 st.reg)
-  | ["cfg"] => (st, s!"chanCap={cfgNow.chanCap} dropOnCreate={b01 cfgNow.dropOnCreate} dropOnDelete={b01 cfgNow.dropOnDelete} applyFilter={b01 cfgNow.applyFilter} rearm={b01 cfgNow.rearm}")
+  | ["cfg"] => (st, s!"chanCap={cfgNow.chanCap} dropOnCreate={b01 cfgNow.dropOnCreate} dropOnDelete={b01 cfgNow.dropOnDelete} applyFilter={b01 cfgNow.applyFilter} rearm={b01 cfgNow.rearm} catchUpAtInit={b01 rcNow.catchUpAtInit} persistFirst={b01 rcNow.persistFirst} writeLock={b01 rcNow.writeLock}")
   | _ => (st, "bad-op")
 
 def showDest (d : List (Nat × Ev)) : String :=
